@@ -48,7 +48,7 @@ def run_one(sc, req, j, name, mutated, orig_rec, orig, ending='FIN', local_max=6
         return mutate.reframe(orig_rec, orig, mutated)
     ops = ops_upto_pdu(sc, j)
     if echo:
-        ops = ops + [('UECHO',)]      # the local user answers the (mutated) request it was indicated, echoing its titles
+        ops = ops + [('UACCEPT',) if echo == 'accept' else ('UECHO',)]      # the local user answers the (mutated) request it was indicated
     if ending == 'DEAF':
         # the peer is gone for writing by the time its last bytes are handled: the provider's answer cannot be written
         ops = ops[:-1] + [('DEAF',), ops[-1], ('FIN',)]
@@ -89,9 +89,10 @@ def main(tier='quick'):
                         recipes.append({'req': req, 'conv': name, 'pdu': j, 'mutator': mname, 'bytes': mb.hex(), 'ending': ending})
                         if not req and name == 'echo' and j == 0 and any(type(i).__name__ == 'AAssociateRqPDU' for i in p.run.indications):
                             # the mutated request was indicated: the user accepts it the way the acceptor does
-                            p = run_one(sc, req, j, mname, mb, rec, b, 'FIN', echo=True)
-                            runs.append(p.run)
-                            recipes.append({'req': req, 'conv': name, 'pdu': j, 'mutator': mname, 'bytes': mb.hex(), 'ending': 'FIN', 'echo': True})
+                            for how in (True, 'accept'):
+                                p = run_one(sc, req, j, mname, mb, rec, b, 'FIN', echo=how)
+                                runs.append(p.run)
+                                recipes.append({'req': req, 'conv': name, 'pdu': j, 'mutator': mname, 'bytes': mb.hex(), 'ending': 'FIN', 'echo': how})
     # (a) an unrecognised PDU whose size is exactly one or two read buffers of a provider with a small own maximum, in
     #     every state the corpus reaches; (b) the local user does not take its indications while the peer pipelines
     n_extra = 0
